@@ -2,6 +2,7 @@
 from pvrules.mir import is_call, peel, show
 from pvrules.rules import count_range, effect_calls, PURE
 from . import atomics_common as ac
+from . import controls
 
 LEVEL = "other"
 EXPLANATION = ("Static MIR rules: the atomic cells of src/atomic64.rs each perform exactly one atomic primitive per operation (R2) or a well-formed "
@@ -68,6 +69,7 @@ def run(ctx):
     loops = ctx.run_rule("R2", lambda c: ac.rule_R2_one_access(c, f)) or []
     ctx.run_rule("R3", lambda c: ac.rule_R3_cas_loop(c, f, loops))
     ctx.run_rule("R4", lambda c: ac.rule_R4_no_nonatomic_rmw(c, [f]))
+    ctx.run_rule("R4", lambda c: controls.control_rmw(c, "R4"))
     ctx.run_rule("R5", lambda c: rule_R5(c, f))
     ctx.run_rule("R6", lambda c: rule_R6(c, f))
     if ctx.tier == "thorough":
